@@ -24,12 +24,15 @@ class Check:
         self.tlc_runs = []
         self.exhaustive = False
         self.bins = {}
-        self.env = {"VERIF_SEED": str(seed % 2000000000)}
+        self.groups = ["ecdsa", "schnorr", "keys"]
+        self.env = {"VERIF_SEED": str(seed % 2000000000), "VERIF_THOROUGH": "1" if tier == "thorough" else "0"}
         self.known = vlib.load_known_findings()
 
     # ---- building -------------------------------------------------------------------------
-    def build(self, variants):
-        self.bins.update(vlib.build_many(list(variants)))
+    def build(self, variants, groups=None):
+        """compile the harness variants (only the op groups this check needs) from /repo's working tree"""
+        groups = groups or self.groups
+        self.bins.update(vlib.build_many(list(variants), self.out + "/bin", groups))
 
     # ---- TLC ------------------------------------------------------------------------------
     def tlc(self, module, cfg, env=None, timeout=1500, workers=16, extra=(), simulate=None, heap="12g", expect_ok=True):
